@@ -108,12 +108,111 @@ fn exprs() -> Vec<String> {
 
 const WRAP: &[&str] = &["<text>{{ @E@ }}</text>", "<view title=\"{{ @E@ }}\" data-x=\"p{{ @E@ }}q\"/>", "<block wx:if=\"{{ @E@ }}\">T</block><block wx:else>F</block>"];
 
+/// tag-level forms: loop variable declarations, chains, templates, slots, attribute families
+const TAGS: &[&str] = &[
+    "<view wx:for=\"{{ list }}\">{{ index }}:{{ item.v }}</view>",
+    "<view wx:for=\"{{ list }}\" wx:for-item=\"it\">{{ index }}:{{ it.v }}:{{ item }}</view>",
+    "<view wx:for=\"{{ list }}\" wx:for-index=\"ix\">{{ ix }}:{{ item.v }}:{{ index }}</view>",
+    "<view wx:for=\"{{ list }}\" wx:for-item=\"index\" wx:for-index=\"item\">{{ item }}:{{ index.v }}</view>",
+    "<view wx:for=\"{{ list }}\" wx:for-item=\"index\">{{ index.v }}</view>",
+    "<view wx:for=\"{{ list }}\" wx:for-index=\"item\">{{ item }}</view>",
+    "<view wx:for=\"{{ list }}\" wx:for-item=\"a\" wx:for-index=\"b\" wx:key=\"k\">{{ b }}:{{ a.v }}</view>{{ a }}{{ b }}",
+    "<block wx:for=\"{{ list }}\" wx:key=\"k\"><view wx:for=\"{{ l2 }}\">{{ index }}:{{ item }}</view>{{ index }}:{{ item.v }}</block>",
+    "<block wx:for=\"{{ list }}\" wx:for-item=\"o\" wx:for-index=\"oi\"><view wx:for=\"{{ l2 }}\" wx:for-item=\"o\">{{ oi }}:{{ o }}:{{ index }}</view>{{ o.v }}</block>",
+    "<view wx:for=\"{{ l2 }}\" wx:key=\"*this\">{{ item }}</view>",
+    "<view wx:for=\"{{ obj }}\">{{ index }}={{ item }}</view>",
+    "<view wx:for=\"{{ c }}\">{{ index }}</view>",
+    "<view wx:for=\"{{ 'xyz' }}\">{{ item }}</view>",
+    "<view wx:if=\"{{ a }}\">A</view><view wx:elif=\"{{ b }}\">B</view><view wx:else>C</view>",
+    "<block wx:if=\"{{ a }}\">A</block><block wx:elif=\"{{ b }}\">B</block><block wx:elif=\"{{ c }}\">C</block>",
+    "<view wx:if=\"{{ a }}\" wx:for=\"{{ l2 }}\">{{ item }}</view>",
+    "<view wx:for=\"{{ l2 }}\" wx:if=\"{{ item }}\">{{ item }}</view><view wx:else>none</view>",
+    "<template name=\"t\"><text>{{ x }}:{{ y }}</text></template><template is=\"t\" data=\"{{ x: a, y: b }}\"/>",
+    "<template name=\"t\"><text>{{ x }}:{{ k }}</text></template><template is=\"t\" data=\"{{ ...obj }}\"/>",
+    "<template name=\"t\"><text>{{ a }}:{{ b }}</text></template><template is=\"t\" data=\"{{ a, b }}\"/>",
+    "<template name=\"t\"><text>T</text></template><template is=\"t\"/>",
+    "<template name=\"t1\">1</template><template name=\"t2\">2</template><template is=\"{{ a ? 't1' : 't2' }}\"/>",
+    "<template name=\"t1\">1{{ x }}</template><template name=\"t2\">2</template><template is=\"t{{ a ? 1 : 2 }}\" data=\"{{ x: b }}\"/>",
+    "<template name=\"b\">B</template><template name=\"a\">A<template is=\"b\"/></template><template is=\"a\"/>",
+    "<view data-x=\"{{ a }}\" data-y-z=\"{{ b }}\" data:dY=\"{{ c }}\" data:q=\"s\"/>",
+    "<view mark:m=\"{{ a }}\" mark:nO=\"{{ b }}\" mark:s=\"t\"/>",
+    "<view id=\"{{ a }}\" class=\"x {{ b }}\" style=\"color: {{ c }}\" hidden=\"{{ d }}\" hidden/>",
+    "<view bind:tap=\"h1\" catch:tap=\"h2\" mut-bind:tap=\"h1\" capture-bind:tap=\"h2\" capture-catch:tap=\"h1\" capture-mut-bind:tap=\"h2\"/>",
+    "<view catch:tap=\"{{ a ? 'h1' : 'h2' }}\" bind:tap=\"h2\" bindlong=\"h1\" catchlong=\"h2\"/>",
+    "<input model:value=\"{{ a }}\" value=\"x\"/><input model:value=\"{{ obj.x }}\"/>",
+    "<view title=\"a&quot;b'c&amp;d&lt;e\" alt='x\"y'>&lt;&amp;&gt;&quot;&#39;&nbsp;{{ a }}</view>",
+    "<view title=\"{{ 'q\\'' + a }}\">{{ \"d'\" + b }}</view>",
+    "<view>  {{ a }}  </view><view> </view><view>\n  x\n  {{ b }}\n</view>",
+    "<text>a<!-- c -->b{{ a }}<!---->{{ b }}</text>",
+    "<view a b=\"\" c=\"{{ '' }}\" d=\"{{ a }}\" e=\" \"/>",
+    "<view extra-attr:e=\"x\" title=\"{{ a }}\"/>",
+    "<wxs module=\"w\">exports.f = function(x){ return x < 1 ? '<a' : '{{' + x }</wxs><text>{{ w.f(a) }}</text>",
+    "<view wx:for=\"{{ list }}\" wx:key=\"k\" bind:tap=\"h1\" data-i=\"{{ index }}\" mark:k=\"{{ item.k }}\" class=\"c{{ index }}\">{{ item.v }}</view>",
+    "<block wx:for=\"{{ list }}\"><block wx:if=\"{{ item.v }}\"><text>{{ item.v }}</text></block><block wx:else><text>none{{ index }}</text></block></block>",
+];
+
+fn tag_variants() -> u64 {
+    4
+}
+
 pub fn count() -> u64 {
-    (exprs().len() * WRAP.len()) as u64
+    (exprs().len() * WRAP.len()) as u64 + TAGS.len() as u64 * tag_variants()
+}
+
+fn tag_world(seed: u64, i: u64, t: usize) -> Value {
+    let mut r = Rng::fork(seed, &format!("c14grid.tag.{}", i));
+    let val = |r: &mut Rng| -> Value { serde_json::from_str(*r.pick(POOL)).unwrap() };
+    let rec = |r: &mut Rng, k: u64| -> Value { json!({"k": k, "v": serde_json::from_str::<Value>(*r.pick(POOL)).unwrap()}) };
+    let mut data = json!({"list": [rec(&mut r, 1), rec(&mut r, 2)], "l2": [val(&mut r), val(&mut r)], "obj": {"x": val(&mut r), "k": val(&mut r)}});
+    for f in ["a", "b", "c", "d", "e"] {
+        data[f] = val(&mut r);
+    }
+    let mut schedule = vec![];
+    let mut k = 10;
+    for _ in 0..6 {
+        let n = r.range(1, 3);
+        for _ in 0..n {
+            match r.below(8) {
+                0 => {
+                    k += 1;
+                    schedule.push(json!(["splice", ["list"], r.below(3), r.below(2), [rec(&mut r, k)]]));
+                }
+                1 => schedule.push(json!(["splice", ["l2"], r.below(3), r.below(2), [val(&mut r)]])),
+                2 => schedule.push(json!(["set", ["list", {"i": r.below(3)}, "v"], val(&mut r)])),
+                3 => schedule.push(json!(["set", ["obj", *r.pick(&["x", "k"])], val(&mut r)])),
+                4 => schedule.push(json!(["reorder", [*r.pick(&["list", "l2"])], "reverse"])),
+                _ => {
+                    let f = *r.pick(&["a", "b", "c", "d", "e"]);
+                    schedule.push(json!(["set", [f], val(&mut r)]));
+                }
+            }
+        }
+        schedule.push(json!(["flush"]));
+    }
+    json!({
+        "engine": "lockstep",
+        "grid": {"expression": TAGS[t], "wrapper": "tag-level form"},
+        "components": [{"is": "root", "methods": ["h1", "h2"], "path": "index", "root": true, "using": {}}],
+        "config": {"backend": "composed"},
+        "data": data,
+        "schedule": schedule,
+        "scripts": [],
+        "sources": [["index", TAGS[t]]],
+        "indexed_lists": [],
+        "script_values": {},
+        "unreachable_fields": [],
+        "root_path": "index",
+        "tags": ["grid"],
+    })
 }
 
 pub fn world(seed: u64, i: u64) -> Value {
     let ex = exprs();
+    let n_expr = (ex.len() * WRAP.len()) as u64;
+    if i >= n_expr {
+        let j = i - n_expr;
+        return tag_world(seed, i, (j / tag_variants()) as usize);
+    }
     let e = &ex[(i as usize) / WRAP.len()];
     let w = WRAP[(i as usize) % WRAP.len()];
     let mut r = Rng::fork(seed, &format!("c14grid.{}", i));
